@@ -65,8 +65,11 @@ func main() {
 	}
 	t0 := time.Now()
 	x.Run()
+	t1 := time.Now()
+	x.RunScripts(k - 1)
+	fmt.Printf("msgrun scripts: %d in %.1fs\n", x.RunTxs.Load(), time.Since(t1).Seconds())
 	pprof.StopCPUProfile()
-	fmt.Printf("explore: nodes=%d txs=%d states=%d memo_hits=%d mismatches=%d in %.1fs (env creation %.1f s, DeliverTx %.1f s summed over workers)\n", x.Nodes.Load(), x.Txs.Load(), x.States.Load(), x.MemoHits.Load(), len(x.Mis), time.Since(t0).Seconds(), float64(x.EnvNanos.Load())/1e9, float64(rx.TxNanos.Load())/1e9)
+	fmt.Printf("explore: nodes=%d txs=%d states=%d memo_hits=%d cold_hits=%d mismatches=%d in %.1fs (env creation %.1f s, DeliverTx %.1f s summed over workers)\n", x.Nodes.Load(), x.Txs.Load(), x.States.Load(), x.MemoHits.Load(), x.ColdHits.Load(), len(x.Mis), time.Since(t0).Seconds(), float64(x.EnvNanos.Load())/1e9, float64(rx.TxNanos.Load())/1e9)
 	x.Report()
 	gd := x.GoDiffs()
 	for _, d := range gd {
